@@ -7,5 +7,5 @@ cd "$ROOT/harness"
 cp -f "${VERIF_REPO:-/repo}/go.sum" go.sum
 mkdir -p "$ROOT/.work/bin" "$ROOT/evidence"
 go build -o "$ROOT/.work/bin/verifgen" ./cmd/verifgen
-go build -tags verif ./... 
+go build -tags verif ./vlib ./ur
 echo "setup ok"
